@@ -6,6 +6,7 @@
 #include <script/script.h>
 #include <instance.h>
 #include <cstring>
+#include <type_traits>
 
 extern "C" {
 // oracle for signature checks: uninterpreted function in the engine, Python callback natively
@@ -23,6 +24,11 @@ int vf_oracle(int kind, const unsigned char* a, unsigned alen, const unsigned ch
 }
 
 namespace {
+// the snapshot vectors are implementation detail: detect which ones exist so that a refactoring of the history representation
+// does not break the shim (an absent vector is reported with size 0xffffffff and never pre-populated)
+#define VERIF_HAS(name) template <class T, class = void> struct has_##name : std::false_type {}; \
+    template <class T> struct has_##name<T, std::void_t<decltype(std::declval<T&>().name)>> : std::true_type {};
+VERIF_HAS(stack_history) VERIF_HAS(altstack_history) VERIF_HAS(pc_history) VERIF_HAS(nOpCount_history) VERIF_HAS(vfExec_history) VERIF_HAS(pbegincodehash_history) VERIF_HAS(execdata_history)
 struct Rd {
     const unsigned char* p;
     uint32_t u32() { uint32_t v; memcpy(&v, p, 4); p += 4; return v; }
@@ -55,6 +61,32 @@ public:
     bool CheckSequence(const CScriptNum& n) const override { int64_t v = n.GetInt64(); return vf_oracle(4, (const unsigned char*)&v, 8, nullptr, 0, nullptr, 0, 0) != 0; }
 };
 
+template <class Env> void dump_hist(Wr& w, Env& env) {
+    const uint32_t NA = 0xffffffffu;
+    uint32_t n0 = NA;
+    if constexpr (has_stack_history<Env>::value) { n0 = (uint32_t)env.stack_history.size(); } w.u32(n0);
+    if constexpr (has_altstack_history<Env>::value) w.u32((uint32_t)env.altstack_history.size()); else w.u32(NA);
+    if constexpr (has_pc_history<Env>::value) w.u32((uint32_t)env.pc_history.size()); else w.u32(NA);
+    if constexpr (has_nOpCount_history<Env>::value) w.u32((uint32_t)env.nOpCount_history.size()); else w.u32(NA);
+    if constexpr (has_vfExec_history<Env>::value) w.u32((uint32_t)env.vfExec_history.size()); else w.u32(NA);
+    if constexpr (has_pbegincodehash_history<Env>::value) w.u32((uint32_t)env.pbegincodehash_history.size()); else w.u32(NA);
+    if constexpr (has_execdata_history<Env>::value) w.u32((uint32_t)env.execdata_history.size()); else w.u32(NA);
+    if (n0 != NA && n0 != 0) {
+        if constexpr (has_stack_history<Env>::value) w.items(env.stack_history.back());
+        if constexpr (has_altstack_history<Env>::value) w.items(env.altstack_history.back()); else w.u32(0);
+        if constexpr (has_pc_history<Env>::value) w.u32((uint32_t)(env.pc_history.back() - env.script.begin())); else w.u32(NA);
+        if constexpr (has_nOpCount_history<Env>::value) w.u32((uint32_t)env.nOpCount_history.back()); else w.u32(NA);
+    }
+}
+template <class Env> void push_hist(Env& env, const std::vector<valtype>& hs, const std::vector<valtype>& ha, uint32_t hpc, uint32_t hn) {
+    if constexpr (has_stack_history<Env>::value) env.stack_history.push_back(hs);
+    if constexpr (has_altstack_history<Env>::value) env.altstack_history.push_back(ha);
+    if constexpr (has_pc_history<Env>::value) env.pc_history.push_back(env.script.begin() + hpc);
+    if constexpr (has_nOpCount_history<Env>::value) env.nOpCount_history.push_back((int)hn);
+    if constexpr (has_vfExec_history<Env>::value) env.vfExec_history.push_back(ConditionStack());
+    if constexpr (has_pbegincodehash_history<Env>::value) env.pbegincodehash_history.push_back(env.script.begin());
+    if constexpr (has_execdata_history<Env>::value) env.execdata_history.push_back(env.execdata);
+}
 void dump(Wr& w, InterpreterEnv& env, ScriptError err) {
     w.u32((uint32_t)err);
     w.items(env.stack);
@@ -74,12 +106,7 @@ void dump(Wr& w, InterpreterEnv& env, ScriptError err) {
     w.u32(env.done ? 1 : 0);
     w.u32(env.is_p2sh ? 1 : 0);
     w.bytes(env.successor_script.data(), env.successor_script.size());
-    w.u32((uint32_t)env.stack_history.size()); w.u32((uint32_t)env.altstack_history.size()); w.u32((uint32_t)env.pc_history.size()); w.u32((uint32_t)env.nOpCount_history.size());
-    w.u32((uint32_t)env.vfExec_history.size()); w.u32((uint32_t)env.pbegincodehash_history.size()); w.u32((uint32_t)env.execdata_history.size());
-    if (!env.stack_history.empty()) {
-        w.items(env.stack_history.back()); w.items(env.altstack_history.back());
-        w.u32((uint32_t)(env.pc_history.back() - env.script.begin())); w.u32((uint32_t)env.nOpCount_history.back());
-    }
+    dump_hist(w, env);
     w.u32(env.tce ? 1 : 0);
 }
 } // namespace
@@ -133,13 +160,8 @@ __attribute__((noinline)) unsigned w_sess(const unsigned char* in, unsigned char
         env.successor_script = CScript(succ.begin(), succ.end());
         uint32_t nhist = r.u32();
         for (uint32_t i = 0; i < nhist; i++) {
-            env.stack_history.push_back(r.items());
-            env.altstack_history.push_back(r.items());
-            env.pc_history.push_back(env.script.begin() + r.u32());
-            env.nOpCount_history.push_back((int)r.u32());
-            env.vfExec_history.push_back(ConditionStack());
-            env.pbegincodehash_history.push_back(env.script.begin());
-            env.execdata_history.push_back(env.execdata);
+            std::vector<valtype> hs = r.items(); std::vector<valtype> ha = r.items(); uint32_t hpc = r.u32(); uint32_t hn = r.u32();
+            push_hist(env, hs, ha, hpc, hn);
         }
         // mock signature pairs (C11)
         uint32_t nmock = r.u32();
